@@ -2,6 +2,7 @@
 import fcntl
 import glob
 import hashlib
+import concurrent.futures as cf
 import json
 import os
 import re
@@ -98,11 +99,16 @@ def coq_build():
         rc, out = sh(["timeout", "1500", "make", "-k", "-j%d" % NPROC], cwd=COQ)
         failed = []
         if rc != 0:
-            for f in coq_files():
+            # a file is "failed" when its .vo is missing or not up to date with respect to ALL its dependencies
+            # (make -k leaves the stale .vo of every dependent of a file that no longer compiles): ask make itself
+            def stale(f):
                 if not os.path.exists(os.path.join(COQ, f + "o")):
-                    failed.append(f)
-                elif os.path.getmtime(os.path.join(COQ, f + "o")) < os.path.getmtime(os.path.join(COQ, f)):
-                    failed.append(f)
+                    return True
+                return subprocess.run(["make", "-q", f + "o"], cwd=COQ, stdout=subprocess.DEVNULL,
+                                      stderr=subprocess.DEVNULL).returncode != 0
+            with cf.ThreadPoolExecutor(max_workers=NPROC) as ex:
+                fl = coq_files()
+                failed = [f for f, s in zip(fl, ex.map(stale, fl)) if s]
             if not failed:
                 failed = ["<make>"]
         return rc == 0, out, failed
